@@ -2,7 +2,7 @@
    Statements only; every proof is `exact <lemma>`.  See DESIGN.md section 5. *)
 From Coq Require Import List ZArith String.
 From Coq.Init Require Import Byte.
-From Sif Require Import Bytes Store Format FormatFacts SpecV1.
+From Sif Require Import Bytes Store Format FormatFacts SpecV1 Image Machine Inv InvLoad LoadFacts Reach.
 From Sif.gen Require Import LayoutGen.
 Import ListNotations.
 Local Notation length := List.length.
@@ -74,7 +74,42 @@ Proof.
               (fun rds H => conj (dec_enc_table rds H) (length_enc_table rds H)))).
 Qed.
 
+(* Every image the library writes decodes, with the v1 decoder (load_image is
+   built from the v1 tables of Format.v only), to exactly the header values and
+   descriptors of the handle that wrote it: in every reachable state. *)
+Theorem C11_written_decodes :
+  forall sha256, (forall c, length (sha256 c) = 32%nat) ->
+  forall s, reachable sha256 s -> load_image (f_bytes (s_io s)) = inl (s_mem s).
+Proof. exact handle_is_reload. Qed.
+
+(* Conversely any image laid out that way by someone else - some well-formed
+   header and descriptors are encoded at the v1 positions, objects inside the
+   file; any slot-ordered ID numbering, free slots anywhere, leftover bytes in
+   unused slots and gaps - is loaded, with that meaning, into a state that
+   satisfies the invariant. *)
+Theorem C11_foreign_loads :
+  forall b bytes, wf_image bytes ->
+  exists s, load b bytes = inl s /\ Inv s /\ f_bytes (s_io s) = bytes.
+Proof. exact load_inv. Qed.
+
+Theorem C11_foreign_meaning :
+  forall m bytes, wf_mem m -> coherent m bytes -> load_image bytes = inl m.
+Proof. exact load_coherent. Qed.
+
+(* a file whose magic or version differs is refused *)
+Theorem C11_magic_version :
+  (forall st, (128 <= length st)%nat -> nread 32 10 st <> magic ->
+              load_image st = inr EInvalidMagic) /\
+  (forall st, (128 <= length st)%nat -> nread 32 10 st = magic -> nread 42 3 st <> version_bytes ->
+              load_image st = inr EBadVersion) /\
+  (forall st, (length st < 128)%nat -> load_image st = inr EShortHeader).
+Proof. exact (conj load_refuses_magic (conj load_refuses_version load_refuses_short)). Qed.
+
 Print Assumptions C11_layout_generated_is_v1.
+Print Assumptions C11_written_decodes.
+Print Assumptions C11_foreign_loads.
+Print Assumptions C11_foreign_meaning.
+Print Assumptions C11_magic_version.
 Print Assumptions C11_enums_generated_are_v1.
 Print Assumptions C11_field_positions.
 Print Assumptions C11_codecs_follow_layout.
